@@ -265,16 +265,21 @@ Proof.
     { destruct (N.ltb_spec i sl); destruct (N.ltb_spec (sl - 1) i); cbn; try reflexivity; lia. }
     rewrite Hcond. destruct (i <? sl) eqn:Ei; cbn [negb].
     2: { cbn. split; [exact HR|]. split; [reflexivity|apply same_frame_refl]. }
-    match goal with |- context [idx_get (pa_idx pa) ?key] => destruct (idx_get (pa_idx pa) key) as [k|] eqn:Ek end.
-    + assert (Hk : known (abs pa) (parent, i) = true) by (apply Rel_known; eauto).
-      unfold add_node. cbn [s_ref]. rewrite Hk.
+    revert Hc.
+    match goal with |- context [idx_get (pa_idx pa) ?key] => destruct (idx_get (pa_idx pa) key) as [k|] eqn:Ek end;
+      intros Hc.
+    + unfold add_node. cbn [s_ref].
+      match goal with |- context [if known (abs pa) ?key then _ else _] =>
+        assert (Hk : known (abs pa) key = true) by (apply Rel_known; eauto); rewrite Hk end.
       apply IHfuel; auto. lia.
-    + assert (Hk : known (abs pa) (parent, i) = false) by (apply Rel_known_false; auto).
-      unfold add_node at 1. cbn [s_ref]. rewrite Hk.
-      set (pa1 := push_node pa (fresh_node (parent, i) pidx parent je fe)) in *.
+    + unfold add_node at 1. cbn [s_ref].
+      match goal with |- context [if known (abs pa) ?key then _ else _] =>
+        assert (Hk : known (abs pa) key = false) by (apply Rel_known_false; auto); rewrite Hk end.
       assert (Hc1 : created pa < two64).
-      { pose proof (gap_created parent sl je fe fuel (i + 1) (add64 (pa_off pa) (lenN (pa_nodes pa))) pa1) as Hm.
-        unfold pa1 in Hm at 1. rewrite created_push in Hm. lia. }
+      { pose proof (gap_created parent sl je fe fuel (i + 1) (add64 (pa_off pa) (lenN (pa_nodes pa)))
+                                (push_node pa (fresh_node (parent, i) pidx parent je fe))) as Hm.
+        rewrite created_push in Hm. lia. }
+      set (pa1 := push_node pa (fresh_node (parent, i) pidx parent je fe)) in *.
       assert (HR1 : Rel pa1) by (eapply Rel_push_slot; eauto).
       assert (Hlo1 : low (abs pa1) parent = Some lo).
       { unfold pa1. rewrite abs_push, low_app_single. cbn. rewrite N.eqb_refl, Hlo. f_equal. lia. }
@@ -283,3 +288,344 @@ Proof.
       * rewrite B. unfold pa1. rewrite abs_push. reflexivity.
       * eapply same_frame_trans; [apply same_frame_push|exact C].
 Qed.
+
+Lemma known_add_node t n r : known (add_node t n) r = known t r || ref_eqb (s_ref n) r.
+Proof.
+  unfold add_node. destruct (known t (s_ref n)) eqn:E.
+  - destruct (ref_eqb (s_ref n) r) eqn:E2; [|rewrite orb_false_r; reflexivity].
+    apply ref_eqb_eq in E2. subst r. rewrite E. reflexivity.
+  - rewrite known_app, known_single. reflexivity.
+Qed.
+
+Lemma known_add_slots p je fe : forall fuel t i to r,
+  known (add_slots fuel t p i to je fe) r = true -> known t r = true \/ (fst r = p /\ i <= snd r <= to).
+Proof.
+  induction fuel; intros t i to r H; cbn [add_slots] in H; [left; exact H|].
+  destruct (to <? i) eqn:E; [left; exact H|]. apply N.ltb_ge in E.
+  apply IHfuel in H. destruct H as [H|[H1 H2]].
+  - rewrite known_add_node in H. apply orb_true_iff in H. destruct H as [H|H]; [left; exact H|].
+    cbn in H. apply ref_eqb_eq in H. subst r. right. cbn. split; [reflexivity|lia].
+  - right. split; [exact H1|lia].
+Qed.
+
+(* with enough fuel, filling (i .. to) is filling (i .. to-1) and then adding the node at `to` *)
+Lemma add_slots_last p je fe : forall fuel t i to,
+  1 <= i -> i <= to -> (N.to_nat (to - i) < fuel)%nat ->
+  add_slots fuel t p i to je fe = add_node (add_slots fuel t p i (to - 1) je fe) (mkSN (p, to) p je fe).
+Proof.
+  induction fuel; intros t i to H1 Hle Hf; [lia|]. cbn [add_slots].
+  destruct (to <? i) eqn:E; [apply N.ltb_lt in E; lia|].
+  destruct (N.eq_dec i to) as [->|Hne].
+  - replace (to - 1 <? to) with true by (symmetry; apply N.ltb_lt; lia).
+    destruct fuel; cbn [add_slots]; [reflexivity|].
+    replace (to <? to + 1) with true by (symmetry; apply N.ltb_lt; lia). reflexivity.
+  - replace (to - 1 <? i) with false by (symmetry; apply N.ltb_ge; lia).
+    apply IHfuel; lia.
+Qed.
+
+Lemma Rel_with_upd pa b : Rel pa -> Rel (with_upd pa b).
+Proof. intros [H1 H2 H3]. constructor; assumption. Qed.
+
+Lemma ProcessSlot_sim parent sl je fe pa :
+  Rel pa -> sl < two64 ->
+  (known (abs pa) (parent, sl) = true \/
+   exists lo, low (abs pa) parent = Some lo /\ lo < sl /\ sl - lo <= slot_fuel_limit) ->
+  created (fst (ProcessSlot parent sl je fe pa)) < two64 ->
+  snd (ProcessSlot parent sl je fe pa) = Ok tt /\
+  Rel (fst (ProcessSlot parent sl je fe pa)) /\
+  abs (fst (ProcessSlot parent sl je fe pa)) = spec_process_slot (abs pa) parent sl je fe /\
+  pa_bs (fst (ProcessSlot parent sl je fe pa)) = pa_bs pa /\ pa_off (fst (ProcessSlot parent sl je fe pa)) = pa_off pa.
+Proof.
+  intros HR Hsl Hdom. unfold ProcessSlot, spec_process_slot, mbind, get.
+  destruct (idx_get (pa_idx pa) (parent, sl)) as [k|] eqn:Ek.
+  - assert (Hk : known (abs pa) (parent, sl) = true) by (apply Rel_known; eauto). rewrite Hk. cbn. auto.
+  - assert (Hk : known (abs pa) (parent, sl) = false) by (apply Rel_known_false; auto). rewrite Hk.
+    destruct Hdom as [Hd|[lo [Hlo [Hlt Hgap]]]]; [congruence|].
+    rewrite (r_bs pa HR parent), Hlo.
+    replace (slot_fuel_limit <? sl - lo) with false by (symmetry; apply N.ltb_ge; exact Hgap).
+    assert (Hadd : add64 lo 1 = lo + 1) by (unfold add64; apply wrap64_small; lia).
+    rewrite Hadd.
+    destruct (gap_loop (N.to_nat (sl - lo)) parent (lo + 1) sl je fe (idx_get0 (pa_idx pa) (parent, lo)) pa) as [pa1 pidx] eqn:Eg.
+    cbn [put fst snd]. intros Hc.
+    assert (Hc' : created (push_node pa1 (fresh_node (parent, sl) pidx parent je fe)) < two64) by exact Hc.
+    rewrite created_push in Hc'.
+    pose proof (gap_sim parent sl je fe lo (N.to_nat (sl - lo)) (lo + 1) (idx_get0 (pa_idx pa) (parent, lo)) pa HR Hlo ltac:(lia)) as Hs.
+    rewrite Eg in Hs. cbn [fst] in Hs. destruct (Hs ltac:(lia)) as [HR1 [Habs [Hbs [Hoff _]]]].
+    assert (Hlo1 : low (abs pa1) parent = Some lo).
+    { pose proof (r_bs pa1 HR1 parent) as E1. pose proof (r_bs pa HR parent) as E2. rewrite Hbs in E1. congruence. }
+    assert (Hfresh : idx_get (pa_idx pa1) (parent, sl) = None).
+    { apply Rel_known_false; auto. rewrite Habs.
+      destruct (known (add_slots _ (abs pa) parent (lo + 1) (sl - 1) je fe) (parent, sl)) eqn:E; [|reflexivity].
+      apply known_add_slots in E. destruct E as [E|[_ E]]; [congruence|cbn in E; lia]. }
+    split; [reflexivity|]. split; [|split; [|split]].
+    + apply Rel_with_upd. apply (Rel_push_slot pa1 parent lo sl pidx je fe HR1 Hlo1 Hlt Hfresh). lia.
+    + change (abs (with_upd (push_node pa1 (fresh_node (parent, sl) pidx parent je fe)) false))
+        with (abs (push_node pa1 (fresh_node (parent, sl) pidx parent je fe))).
+      rewrite abs_push, Habs. cbn [abs_node fresh_node n_ref n_parent n_je n_fe].
+      rewrite (add_slots_last parent je fe (N.to_nat (sl - lo)) (abs pa) (lo + 1) sl) by lia.
+      unfold add_node at 1. cbn [s_ref].
+      replace (known (add_slots (N.to_nat (sl - lo)) (abs pa) parent (lo + 1) (sl - 1) je fe) (parent, sl)) with false; [reflexivity|].
+      symmetry. rewrite <- Habs. apply Rel_known_false; auto.
+    + cbn. exact Hbs.
+    + cbn. exact Hoff.
+Qed.
+
+Lemma known_spec_process_slot t p sl je fe x :
+  known (spec_process_slot t p sl je fe) x = true -> known t x = true \/ fst x = p.
+Proof.
+  unfold spec_process_slot. destruct (known t (p, sl)); [auto|]. destruct (low t p); [|auto].
+  intros H. apply known_add_slots in H. tauto.
+Qed.
+
+Lemma Rel_low_known pa r lo : Rel pa -> low (abs pa) r = Some lo -> exists k, idx_get (pa_idx pa) (r, lo) = Some k.
+Proof. intros HR H. apply Rel_known; auto. apply low_known. exact H. Qed.
+
+Definition block_final (pa1 : parray) (parent r sl je fe tp fcp : N) : parray :=
+  let pa2 := push_node pa1 (mkNode (r, sl) tp fcp parent je fe 0%Z NONE NONE) in
+  mkPA (pa_sink_nil pa2) (pa_off pa2) (pa_je pa2) (pa_fe pa2) (pa_nodes pa2) (pa_idx pa2) (bs_set (pa_bs pa2) r sl) false.
+
+Lemma ProcessBlock_unfold parent r sl je fe pa :
+  ProcessBlock parent r sl je fe pa =
+  match idx_get (pa_idx pa) (r, sl) with
+  | Some _ => (pa, Ok true)
+  | None =>
+      match bs_get (pa_bs pa) r with
+      | Some _ => (pa, Ok true)
+      | None =>
+          match bs_get (pa_bs pa) parent with
+          | None => (pa, Ok false)
+          | Some ps =>
+              if sl <=? ps then (pa, Ok false) else
+              match ProcessSlot parent sl je fe pa with
+              | (pa1, Ok _) =>
+                  match idx_get (pa_idx pa1) (parent, ps) with
+                  | None => (pa1, Ok false)
+                  | Some fcp =>
+                      match idx_get (pa_idx pa1) (parent, sl) with
+                      | None => (pa1, Panic Explicit)
+                      | Some tp => (block_final pa1 parent r sl je fe tp fcp, Ok true)
+                      end
+                  end
+              | (pa1, Err) => (pa1, Err)
+              | (pa1, Panic p) => (pa1, Panic p)
+              | (pa1, Blocked) => (pa1, Blocked)
+              | (pa1, OutOfFuel) => (pa1, OutOfFuel)
+              end
+          end
+      end
+  end.
+Proof.
+  unfold ProcessBlock, mbind, get, ret, put, fail.
+  destruct (idx_get (pa_idx pa) (r, sl)); [reflexivity|].
+  destruct (bs_get (pa_bs pa) r); [reflexivity|].
+  destruct (bs_get (pa_bs pa) parent) as [ps|]; [|reflexivity].
+  destruct (sl <=? ps); [reflexivity|].
+  destruct (ProcessSlot parent sl je fe pa) as [pa1 o1]. destruct o1; try reflexivity.
+  destruct (idx_get (pa_idx pa1) (parent, ps)); [|reflexivity].
+  destruct (idx_get (pa_idx pa1) (parent, sl)); reflexivity.
+Qed.
+
+Lemma ProcessBlock_sim parent r sl je fe pa :
+  Rel pa -> sl < two64 ->
+  (forall lo, low (abs pa) parent = Some lo -> sl - lo <= slot_fuel_limit) ->
+  created (fst (ProcessBlock parent r sl je fe pa)) < two64 ->
+  snd (ProcessBlock parent r sl je fe pa) = Ok (snd (spec_process_block (abs pa) parent r sl je fe)) /\
+  Rel (fst (ProcessBlock parent r sl je fe pa)) /\
+  abs (fst (ProcessBlock parent r sl je fe pa)) = fst (spec_process_block (abs pa) parent r sl je fe) /\
+  pa_off (fst (ProcessBlock parent r sl je fe pa)) = pa_off pa.
+Proof.
+  intros HR Hsl Hgap. rewrite ProcessBlock_unfold. unfold spec_process_block.
+  destruct (idx_get (pa_idx pa) (r, sl)) as [k|] eqn:Ek.
+  { assert (Hk : known (abs pa) (r, sl) = true) by (apply Rel_known; eauto). rewrite Hk. cbn. intros _. repeat split; auto; apply HR. }
+  assert (Hk : known (abs pa) (r, sl) = false) by (apply Rel_known_false; auto). rewrite Hk.
+  rewrite (r_bs pa HR r). destruct (low (abs pa) r) as [lr|] eqn:Elr; [cbn; intros _; repeat split; auto; apply HR|].
+  rewrite (r_bs pa HR parent). destruct (low (abs pa) parent) as [lo|] eqn:Elo; [|cbn; intros _; repeat split; auto; apply HR].
+  destruct (sl <=? lo) eqn:Ele; [cbn; intros _; repeat split; auto; apply HR|]. apply N.leb_gt in Ele.
+  assert (Hdom : known (abs pa) (parent, sl) = true \/
+                 exists lo0, low (abs pa) parent = Some lo0 /\ lo0 < sl /\ sl - lo0 <= slot_fuel_limit).
+  { right. exists lo. auto. }
+  pose proof (ProcessSlot_sim parent sl je fe pa HR Hsl Hdom) as Hps.
+  destruct (ProcessSlot parent sl je fe pa) as [pa1 o1] eqn:Eps. cbn [fst snd] in Hps.
+  assert (Hstep : created pa1 < two64 ->
+                  o1 = Ok tt /\ Rel pa1 /\ abs pa1 = spec_process_slot (abs pa) parent sl je fe /\ pa_bs pa1 = pa_bs pa /\ pa_off pa1 = pa_off pa)
+    by exact Hps.
+  clear Hps.
+  destruct o1 as [u| | | |]; cbn [fst snd].
+  2-5: intros Hc; destruct (Hstep Hc) as [Ho _]; discriminate.
+  assert (Hfinal : forall (Hc1 : created pa1 < two64),
+            exists fcp tp, idx_get (pa_idx pa1) (parent, lo) = Some fcp /\ idx_get (pa_idx pa1) (parent, sl) = Some tp).
+  { intros Hc1. destruct (Hstep Hc1) as [_ [HR1 [Habs [Hbs _]]]].
+    assert (Hlo1 : low (abs pa1) parent = Some lo).
+    { pose proof (r_bs pa1 HR1 parent) as E1. pose proof (r_bs pa HR parent) as E2. rewrite Hbs in E1. congruence. }
+    destruct (Rel_low_known pa1 parent lo HR1 Hlo1) as [fcp Hf]. exists fcp.
+    assert (Hks : known (abs pa1) (parent, sl) = true).
+    { rewrite Habs. unfold spec_process_slot. destruct (known (abs pa) (parent, sl)) eqn:E; [exact E|]. rewrite Elo.
+      rewrite (add_slots_last parent je fe (N.to_nat (sl - lo)) (abs pa) (lo + 1) sl) by lia.
+      rewrite known_add_node. cbn [s_ref]. rewrite ref_eqb_refl. apply orb_true_r. }
+    apply Rel_known in Hks; auto. destruct Hks as [tp Ht]. exists tp. auto. }
+  destruct (idx_get (pa_idx pa1) (parent, lo)) as [fcp|] eqn:Efc.
+  2: { cbn. intros Hc. exfalso. destruct (Hfinal Hc) as [? [? [? _]]]. discriminate. }
+  destruct (idx_get (pa_idx pa1) (parent, sl)) as [tp|] eqn:Etp.
+  2: { cbn. intros Hc. exfalso. destruct (Hfinal Hc) as [? [? [_ ?]]]. discriminate. }
+  cbn [fst snd]. unfold block_final.
+  set (blk := mkNode (r, sl) tp fcp parent je fe 0%Z NONE NONE).
+  intros Hc.
+  assert (Hc' : created (push_node pa1 blk) < two64) by exact Hc. rewrite created_push in Hc'.
+  destruct (Hstep ltac:(lia)) as [_ [HR1 [Habs [Hbs Hoff]]]].
+  assert (Hnp : r <> parent) by (intros ->; congruence).
+  assert (Hfresh : idx_get (pa_idx pa1) (r, sl) = None).
+  { apply Rel_known_false; auto. rewrite Habs.
+    destruct (known (spec_process_slot (abs pa) parent sl je fe) (r, sl)) eqn:E; [|reflexivity].
+    apply known_spec_process_slot in E. destruct E as [E|E]; [congruence|cbn in E; congruence]. }
+  assert (Hlr1 : low (abs pa1) r = None).
+  { pose proof (r_bs pa1 HR1 r) as E1. pose proof (r_bs pa HR r) as E2. rewrite Hbs in E1. congruence. }
+  destruct (push_idx pa1 blk HR1 Hfresh ltac:(lia)) as [P1 P2].
+  split; [reflexivity|]. split; [|split].
+  - constructor; cbn [pa_nodes pa_idx pa_off pa_bs]; [exact P1 | exact P2 |].
+    intros r'. match goal with |- _ = low (abs ?X) _ => change (abs X) with (abs (push_node pa1 blk)) end.
+    rewrite abs_push, low_app_single, bs_get_set. cbn [abs_node blk n_ref s_ref fst snd push_node pa_bs].
+    rewrite (N.eqb_sym r' r). destruct (r =? r') eqn:E.
+    + apply N.eqb_eq in E. subst r'. rewrite Hlr1. reflexivity.
+    + apply (r_bs pa1 HR1).
+  - match goal with |- abs ?X = _ => change (abs X) with (abs (push_node pa1 blk)) end.
+    rewrite abs_push, Habs. cbn [fst]. unfold add_node. cbn [s_ref abs_node blk n_ref].
+    replace (known (spec_process_slot (abs pa) parent sl je fe) (r, sl)) with false; [reflexivity|].
+    symmetry. rewrite <- Habs. apply Rel_known_false; auto.
+  - cbn. exact Hoff.
+Qed.
+
+(* ---------- histories of insertions ---------- *)
+Inductive iop := ISlot (p : N) (s : N) (je fe : N) | IBlock (p r : N) (s : N) (je fe : N).
+
+Definition impl_iop (o : iop) : M parray (option bool) :=
+  match o with
+  | ISlot p s je fe => mbind (ProcessSlot p s je fe) (fun _ => ret None)
+  | IBlock p r s je fe => mbind (ProcessBlock p r s je fe) (fun b => ret (Some b))
+  end.
+Definition spec_iop (o : iop) (t : tree) : tree * option bool :=
+  match o with
+  | ISlot p s je fe => (spec_process_slot t p s je fe, None)
+  | IBlock p r s je fe => let '(t', b) := spec_process_block t p r s je fe in (t', Some b)
+  end.
+
+(* the documented domain of an insertion, relative to the tree so far *)
+Definition iop_dom (t : tree) (o : iop) : Prop :=
+  match o with
+  | ISlot p s _ _ =>
+      s < two64 /\ (known t (p, s) = true \/ exists lo, low t p = Some lo /\ lo < s /\ s - lo <= slot_fuel_limit)
+  | IBlock p _ s _ _ => s < two64 /\ forall lo, low t p = Some lo -> s - lo <= slot_fuel_limit
+  end.
+
+Fixpoint impl_iops (ops : list iop) (pa : parray) : parray * list (outcome (option bool)) :=
+  match ops with
+  | [] => (pa, [])
+  | o :: ops' => let '(pa1, r) := impl_iop o pa in let '(pa2, rs) := impl_iops ops' pa1 in (pa2, r :: rs)
+  end.
+Fixpoint spec_iops (ops : list iop) (t : tree) : tree * list (option bool) :=
+  match ops with
+  | [] => (t, [])
+  | o :: ops' => let '(t1, r) := spec_iop o t in let '(t2, rs) := spec_iops ops' t1 in (t2, r :: rs)
+  end.
+Fixpoint iops_dom (ops : list iop) (t : tree) : Prop :=
+  match ops with
+  | [] => True
+  | o :: ops' => iop_dom t o /\ iops_dom ops' (fst (spec_iop o t))
+  end.
+
+Lemma ProcessSlot_created p s je fe pa : created pa <= created (fst (ProcessSlot p s je fe pa)).
+Proof.
+  unfold ProcessSlot, mbind, get.
+  destruct (idx_get (pa_idx pa) (p, s)); [cbn; lia|].
+  destruct (bs_get (pa_bs pa) p) as [ps|].
+  - destruct (slot_fuel_limit <? s - ps); [cbn; lia|].
+    pose proof (gap_created p s je fe (N.to_nat (s - ps)) (add64 ps 1) (idx_get0 (pa_idx pa) (p, ps)) pa) as H.
+    destruct (gap_loop _ p (add64 ps 1) s je fe _ pa) as [pa1 pidx]. cbn [fst] in H. cbn [put fst].
+    change (created (with_upd (push_node pa1 (fresh_node (p, s) pidx p je fe)) false))
+      with (created (push_node pa1 (fresh_node (p, s) pidx p je fe))).
+    rewrite created_push. lia.
+  - cbn [put fst].
+    change (created (with_upd (push_node pa (fresh_node (p, s) NONE p je fe)) false))
+      with (created (push_node pa (fresh_node (p, s) NONE p je fe))).
+    rewrite created_push. lia.
+Qed.
+Lemma ProcessBlock_created p r s je fe pa : created pa <= created (fst (ProcessBlock p r s je fe pa)).
+Proof.
+  rewrite ProcessBlock_unfold.
+  destruct (idx_get (pa_idx pa) (r, s)); [cbn; lia|].
+  destruct (bs_get (pa_bs pa) r); [cbn; lia|].
+  destruct (bs_get (pa_bs pa) p) as [ps|]; [|cbn; lia].
+  destruct (s <=? ps); [cbn; lia|].
+  pose proof (ProcessSlot_created p s je fe pa) as H.
+  destruct (ProcessSlot p s je fe pa) as [pa1 o1]. cbn [fst] in H.
+  destruct o1; cbn [fst]; try lia.
+  destruct (idx_get (pa_idx pa1) (p, ps)); [|cbn; lia].
+  destruct (idx_get (pa_idx pa1) (p, s)); [|cbn; lia].
+  cbn [fst]. unfold block_final.
+  match goal with |- _ <= created ?X => change (created X) with (created (push_node pa1 (mkNode (r, s) n0 n p je fe 0%Z NONE NONE))) end.
+  rewrite created_push. lia.
+Qed.
+Lemma impl_iop_created o pa : created pa <= created (fst (impl_iop o pa)).
+Proof.
+  destruct o; cbn [impl_iop]; unfold mbind.
+  - pose proof (ProcessSlot_created p s je fe pa). destruct (ProcessSlot p s je fe pa) as [pa1 o1]. destruct o1; exact H.
+  - pose proof (ProcessBlock_created p r s je fe pa). destruct (ProcessBlock p r s je fe pa) as [pa1 o1]. destruct o1; exact H.
+Qed.
+Lemma impl_iops_created ops : forall pa, created pa <= created (fst (impl_iops ops pa)).
+Proof.
+  induction ops as [|o ops IH]; intros pa; cbn [impl_iops]; [cbn; lia|].
+  pose proof (impl_iop_created o pa) as H1. destruct (impl_iop o pa) as [pa1 r]. cbn [fst] in H1.
+  pose proof (IH pa1) as H2. destruct (impl_iops ops pa1) as [pa2 rs]. cbn [fst] in *. lia.
+Qed.
+
+Lemma impl_iop_sim o pa :
+  Rel pa -> iop_dom (abs pa) o -> created (fst (impl_iop o pa)) < two64 ->
+  snd (impl_iop o pa) = Ok (snd (spec_iop o (abs pa))) /\ Rel (fst (impl_iop o pa)) /\
+  abs (fst (impl_iop o pa)) = fst (spec_iop o (abs pa)) /\ pa_off (fst (impl_iop o pa)) = pa_off pa.
+Proof.
+  intros HR Hdom. destruct o; cbn [impl_iop spec_iop iop_dom] in *; unfold mbind.
+  - destruct Hdom as [Hs Hd]. pose proof (ProcessSlot_sim p s je fe pa HR Hs Hd) as H.
+    destruct (ProcessSlot p s je fe pa) as [pa1 o1]. cbn [fst snd] in H.
+    destruct o1; cbn; intros Hc; destruct (H Hc) as [Ho [HR1 [Habs [_ Hoff]]]]; try discriminate.
+    split; [reflexivity|]. split; [exact HR1|]. split; assumption.
+  - destruct Hdom as [Hs Hd]. pose proof (ProcessBlock_sim p r s je fe pa HR Hs Hd) as H.
+    destruct (ProcessBlock p r s je fe pa) as [pa1 o1]. cbn [fst snd] in H.
+    destruct (spec_process_block (abs pa) p r s je fe) as [t' b] eqn:Es. cbn [fst snd] in *.
+    destruct o1; cbn; intros Hc; destruct (H Hc) as [Ho [HR1 [Habs Hoff]]]; try discriminate.
+    inversion Ho. subst. split; [reflexivity|]. split; [exact HR1|]. split; [reflexivity|assumption].
+Qed.
+
+(* C11, insertions: for every history of ProcessSlot/ProcessBlock calls in the domain the array denotes exactly the tree of
+   accepted insertions, every ProcessBlock answers what the tree rule says, nothing panics *)
+Theorem insert_refines : forall ops pa,
+  Rel pa -> iops_dom ops (abs pa) -> created (fst (impl_iops ops pa)) < two64 ->
+  snd (impl_iops ops pa) = map Ok (snd (spec_iops ops (abs pa))) /\
+  Rel (fst (impl_iops ops pa)) /\ abs (fst (impl_iops ops pa)) = fst (spec_iops ops (abs pa)) /\
+  pa_off (fst (impl_iops ops pa)) = pa_off pa.
+Proof.
+  induction ops as [|o ops IH]; intros pa HR Hdom Hc; cbn [impl_iops spec_iops iops_dom] in *.
+  - cbn. split; [reflexivity|]. split; [exact HR|]. split; reflexivity.
+  - destruct Hdom as [Hd1 Hd2].
+    pose proof (impl_iop_sim o pa HR Hd1) as Hs.
+    pose proof (impl_iops_created ops (fst (impl_iop o pa))) as Hm.
+    destruct (impl_iop o pa) as [pa1 r1]. cbn [fst snd] in *.
+    destruct (spec_iop o (abs pa)) as [t1 s1] eqn:Es. cbn [fst snd] in *.
+    destruct (impl_iops ops pa1) as [pa2 rs] eqn:Ei. cbn [fst snd] in *.
+    destruct (Hs ltac:(lia)) as [Ho [HR1 [Habs Hoff]]].
+    rewrite <- Habs in Hd2. specialize (IH pa1 HR1 Hd2). rewrite Ei in IH. cbn [fst snd] in IH.
+    destruct (IH Hc) as [A [B [C D]]]. rewrite Habs in *.
+    destruct (spec_iops ops t1) as [t2 ss]. cbn [fst snd] in *.
+    subst. split; [reflexivity|]. split; [exact B|]. split; [reflexivity|congruence].
+Qed.
+
+Lemma Rel_new_array parent r s je fe sn : Rel (new_array parent r s je fe sn).
+Proof.
+  constructor; cbn.
+  - intros i n H. destruct i; cbn in H; [|destruct i; discriminate]. inversion H. subst. cbn. rewrite ref_eqb_refl. reflexivity.
+  - intros r0 k H. destruct (ref_eqb r0 (r, s)) eqn:E; [|discriminate]. inversion H. apply ref_eqb_eq in E. subst.
+    exists 0%nat. eexists. split; [reflexivity|]. split; reflexivity.
+  - intros r0. unfold low, nodes_of_root. cbn. rewrite (N.eqb_sym r r0). destruct (r0 =? r); reflexivity.
+Qed.
+
+(* queries that only look at the tables: GetSlot is the lowest known slot, node membership is `indices` *)
+Lemma GetSlot_refines pa r : Rel pa -> GetSlot pa r = spec_get_slot (abs pa) r.
+Proof. intros HR. apply (r_bs pa HR). Qed.
